@@ -92,19 +92,25 @@ def simplifyLoop (dist : Point64 → Point64 → Point64 → D) (path : Array Po
     | none => s
     | some s' => simplifyLoop dist path epsSq isClosed high f s'
 
+/-- the state in which the outer loop of `SimplifyPath64` stops (flags of the removed vertices) -/
+def simplifyFinal (dist : Point64 → Point64 → Point64 → D) (maxD : D) (path : Array Point64)
+    (epsSq : D) (isClosed : Bool) : SimpState D :=
+  let l := path.size
+  let high := l - 1
+  let dsq0 : Array D := (Array.range l).map fun i =>
+    if i = 0 then (if isClosed then dist path[0]! path[high]! path[1]! else maxD)
+    else if i = high then (if isClosed then dist path[high]! path[0]! path[high-1]! else maxD)
+    else dist path[i]! path[i-1]! path[i+1]!
+  simplifyLoop dist path epsSq isClosed high (l + 1)
+    { flags := Array.replicate l false, dsq := dsq0, curr := 0 }
+
 /-- `SimplifyPath64` with the distance function, ε² and the "infinite" end-point distance as parameters -/
 def simplifyPath (dist : Point64 → Point64 → Point64 → D) (maxD : D) (path : Array Point64)
     (epsSq : D) (isClosed : Bool) : Array Point64 :=
   let l := path.size
   if l < 4 then path
   else
-    let high := l - 1
-    let dsq0 : Array D := (Array.range l).map fun i =>
-      if i = 0 then (if isClosed then dist path[0]! path[high]! path[1]! else maxD)
-      else if i = high then (if isClosed then dist path[high]! path[0]! path[high-1]! else maxD)
-      else dist path[i]! path[i-1]! path[i+1]!
-    let s := simplifyLoop dist path epsSq isClosed high (l + 1)
-      { flags := Array.replicate l false, dsq := dsq0, curr := 0 }
+    let s := simplifyFinal dist maxD path epsSq isClosed
     (Array.range l).filterMap fun i => if s.flags[i]! then none else some path[i]!
 
 /-- the executable instance: `float64` distances as computed by the generated code -/
